@@ -109,6 +109,7 @@ case('endswith', models.str_endswith, str.endswith, [STRINGS, STRINGS])
 case('endswith-tuple', lambda s: models.str_endswith(s, ('/', 'c')), lambda s: s.endswith(('/', 'c')), [STRINGS])
 case('contains', lambda a, b: models.str_contains(a, b), lambda a, b: b in a, [STRINGS, STRINGS])
 case('find', models.str_find, str.find, [STRINGS, STRINGS])
+case('find-from', lambda s, t, i: models.str_find(s, t, i), lambda s, t, i: s.find(t, i), [STRINGS, ['', 'a', 'b', '/', 'X'], INTS], 300)
 case('index', lambda s, i: models.str_getitem(s, i), lambda s, i: s[i], [STRINGS, INTS])
 case('slice-from', lambda s, i: models.str_getitem(s, slice(i, None)), lambda s, i: s[i:], [STRINGS, INTS])
 case('slice-to', lambda s, i: models.str_getitem(s, slice(None, i)), lambda s, i: s[:i], [STRINGS, INTS])
